@@ -181,6 +181,11 @@ func (v *p2variant) apply(m c19Mut) {
 		if m.Value == "65535" {
 			v.recvExp[0] = 65535
 		}
+	case "recv.exps_vdm_singular":
+		// the blocks are relabelled with exponents 0, 65535/3 and 2*65535/3: with the slices 0 and 2 missing (constants
+		// 2^1 and 2^4, ratio of order 21845) the two lowest rows form a singular system - the format's own flaw
+		v.recvExp[1] = 21845
+		v.recvExp[2] = 43690
 	case "recv.datalen":
 		v.recvLen = int(valueOf(m.Value, c19S, 0))
 	case "fd.hash":
@@ -452,6 +457,9 @@ func crashText(verr, vtext, rerr, rtext string) string {
 }
 
 func needs(fmtName, data string, prot map[string][]byte) int {
+	if data == "two02" {
+		return 2
+	}
 	if data != "one" {
 		return 0
 	}
@@ -487,6 +495,20 @@ func runC19Case(dir string, cs c19Case, prot map[string][]byte, a1 *arch1) (trac
 			victim = baseVariant(prot).files[0].name
 		}
 		disk[victim] = nil
+	}
+	if cs.Data == "two02" && fmtName == "par2" {
+		// damage the slices with global indices 0 and 2 (recovery-set order)
+		g := 0
+		for _, f := range baseVariant(prot).files {
+			for k := 0; k < refpar2.NumSlices(len(f.data), c19S); k++ {
+				if g == 0 || g == 2 {
+					d := append([]byte{}, disk[f.name]...)
+					d[k*c19S] ^= 0x5A
+					disk[f.name] = d
+				}
+				g++
+			}
+		}
 	}
 	for _, n := range c19Names {
 		if disk[n] != nil {
